@@ -3,6 +3,7 @@ use anyhow::{Result, bail};
 use serde_json::Value;
 
 pub mod c07;
+pub mod canon;
 pub mod c31;
 pub mod c32;
 pub mod ll;
@@ -20,6 +21,7 @@ pub fn replay_fn(kind: &str) -> Result<fn(&Value) -> Outcome> {
         "llrun" => llrun::replay,
         "c07" => c07::replay,
         "c31" => c31::replay,
+        "canon" => canon::replay,
         "scan" => scan::replay,
         "c32" => c32::replay,
         "lrrun" => lrrun::replay,
